@@ -5,6 +5,7 @@ CONSTANTS
   WithPlans = FALSE
   BlockBudget = 1000
   MinDecls = 25
+  MaxNest = 5
   TypesOnly = FALSE
   CallsOnly = FALSE
   Rich = TRUE
